@@ -3,6 +3,7 @@
 from __future__ import annotations
 
 import time
+from string import Formatter
 from typing import IO, TYPE_CHECKING
 
 import numpy as np
@@ -119,8 +120,15 @@ class Logger(TextObserver):
 
         for name in self.fields:
             header_format = self.fields[name]["header_format"]
-            if self.fields[name]["is_array"] and isinstance(name, tuple):
-                to_write.append(header_format.format(*name))
+            if self.fields[name]["is_array"]:
+                # one name per component, or a single name for the whole array: it heads
+                # the first column, the remaining columns of the field stay blank
+                names = name if isinstance(name, tuple) else (name,)
+                columns = sum(
+                    1 for _, field, _, _ in Formatter().parse(header_format) if field is not None
+                )
+                names = (*names, *[""] * (columns - len(names)))
+                to_write.append(header_format.format(*names))
             else:
                 to_write.append(header_format.format(name))
 
